@@ -102,6 +102,20 @@ impl QueryEngine {
         Ok(engine)
     }
 
+    /// Plan a statement submitted through a query interface.
+    ///
+    /// The query interfaces are read-only: statements that would write to storage
+    /// (COPY, INSERT), define or drop tables and views (DDL, which the engine executes
+    /// while planning) or change session settings (SET) are rejected here, before
+    /// anything is executed. This also covers EXPLAIN ANALYZE of such statements.
+    async fn plan_read_only(&self, sql: &str) -> Result<DataFrame> {
+        let options = SQLOptions::new()
+            .with_allow_ddl(false)
+            .with_allow_dml(false)
+            .with_allow_statements(false);
+        Ok(self.ctx.sql_with_options(sql, options).await?)
+    }
+
     /// Register `metrics` for the given chunk paths and plan `sql` against that binding
     /// in one critical section.
     ///
@@ -116,7 +130,7 @@ impl QueryEngine {
             .await?;
         #[cfg(cardinalsin_verif)]
         crate::verif_hooks::pause("query.after_register").await;
-        Ok(self.ctx.sql(sql).await?)
+        Ok(self.plan_read_only(sql).await?)
     }
 
     /// Register `metrics` for the given chunk paths, then execute the operation.
@@ -272,7 +286,7 @@ impl QueryEngine {
 
     /// Execute a SQL query
     pub async fn execute(&self, sql: &str) -> Result<Vec<RecordBatch>> {
-        let df = self.ctx.sql(sql).await?;
+        let df = self.plan_read_only(sql).await?;
         let batches = df.collect().await?;
         Ok(batches)
     }
@@ -284,7 +298,7 @@ impl QueryEngine {
         tenant_id: &str,
         index_controller: Arc<crate::adaptive_index::AdaptiveIndexController>,
     ) -> Result<Vec<RecordBatch>> {
-        let df = self.ctx.sql(sql).await?;
+        let df = self.plan_read_only(sql).await?;
         self.execute_dataframe_with_indexes(df, tenant_id, index_controller)
             .await
     }
@@ -392,14 +406,14 @@ impl QueryEngine {
         &self,
         sql: &str,
     ) -> Result<datafusion::physical_plan::SendableRecordBatchStream> {
-        let df = self.ctx.sql(sql).await?;
+        let df = self.plan_read_only(sql).await?;
         let stream = df.execute_stream().await?;
         Ok(stream)
     }
 
     /// Extract time range from a SQL query by analyzing the logical plan
     pub async fn extract_time_range(&self, sql: &str) -> Result<TimeRange> {
-        let df = self.ctx.sql(sql).await?;
+        let df = self.plan_read_only(sql).await?;
         // Work on the analyzed and simplified plan: bounds written as TIMESTAMP '...'
         // literals (casts) or relative to now() are plain literals there.
         let plan = self
@@ -569,7 +583,7 @@ impl QueryEngine {
         &self,
         sql: &str,
     ) -> Result<Vec<crate::metadata::predicates::ColumnPredicate>> {
-        let df = self.ctx.sql(sql).await?;
+        let df = self.plan_read_only(sql).await?;
         let plan = df.logical_plan();
 
         let mut predicates = Vec::new();
@@ -726,7 +740,7 @@ impl QueryEngine {
 
     /// Analyze a query without executing
     pub async fn analyze(&self, sql: &str) -> Result<datafusion::logical_expr::LogicalPlan> {
-        let df = self.ctx.sql(sql).await?;
+        let df = self.plan_read_only(sql).await?;
         Ok(df.logical_plan().clone())
     }
 
@@ -737,7 +751,7 @@ impl QueryEngine {
 
         // In a full implementation, we'd cache the logical plan
         // For now, just validate the SQL
-        let _ = self.ctx.sql(sql).await?;
+        let _ = self.plan_read_only(sql).await?;
 
         Ok(handle)
     }
